@@ -722,7 +722,9 @@ def gen_mesh(rng):
             links = [(rng.choice(order), 1.0 if rng.random() < 0.7 else d6(0, 1))]   # one link, sometimes with a weight of its own
         else:
             links = [(rng.choice(order), d6(0, 1)) for _ in range(rng.choice((2, 2, 3, 4)))]
-        return Vertex(Vec(d6(-512, 512), d6(-512, 512), d6(-512, 512)), Vec(d6(-1, 1), d6(-1, 1), d6(-1, 1)),
+        # (normals are not always unit vectors in hand-made or scaled meshes: every column is a plain %.6f number)
+        nlim = 1 if rng.random() < 0.7 else rng.choice((3, 20, 1000))
+        return Vertex(Vec(d6(-512, 512), d6(-512, 512), d6(-512, 512)), Vec(d6(-nlim, nlim), d6(-nlim, nlim), d6(-nlim, nlim)),
                       d6(-4, 4), d6(-4, 4), links)
 
     tris = [Triangle(mat(), vert(), vert(), vert()) for _ in range(rng.choice((0, 1, 2, 5)))]
